@@ -18,7 +18,7 @@ def overlay_of(patch):
         for f in files:
             os.makedirs(os.path.dirname(os.path.join(tmp, f)), exist_ok=True)
             shutil.copy(os.path.join(REPO, f), os.path.join(tmp, f))
-        r = subprocess.run(["patch", "-p1", "-s", "-d", tmp, "-i", patch], capture_output=True, text=True)
+        r = subprocess.run(["patch", "-p1", "-s", "-d", tmp, "-i", os.path.abspath(patch)], capture_output=True, text=True)
         if r.returncode != 0:
             return None, r.stdout + r.stderr
         return {f: open(os.path.join(tmp, f)).read() for f in files}, None
